@@ -59,3 +59,11 @@ package momentum
 //@   ensures[exact-range] err == nil ==> len(list) == to - from
 //@   loop 1
 //@     invariant from <= i && i <= to && len(list) == i - from
+
+// ---- C16: a momentum is applied only with the patch of a block the pool has applied (and therefore verified) ---------------
+// A content header whose block never went through the pool has no patch; the store must not treat that as "nothing to do".
+// (On the unchanged tree a nil patch ends in a nil-pointer panic inside this function, which the supervisor turns into a
+// refusal of the momentum.)
+//@ func momentumStore.AddAccountBlockTransaction(ms, header, patch) -> (err)
+//@   requires ms != nil
+//@   ensures[no-header-is-adopted-without-its-patch] err == nil ==> patch != nil
